@@ -21,6 +21,10 @@ vals = {
  "int": 1, "float": 1.0, "bool": True, "str": "a", "bytes": b"a", "list": [1, 2], "tuple": (1, 2), "none": None,
  "dict_str": D([("x", 1), ("y", [1, 2]), ("zz", {"k": 2})]),
  "dict_mixed_keys": D([(1, "a"), ("b", 2), ((1, 2), 3)]),
+ "dict_2500_int_keys": D([(i, str(i)) for i in range(2500)]),
+ "dict_1001_str_keys": D([("k%d" % i, i) for i in range(1001)]),
+ "nested_big_dict": [D([(i, i) for i in range(1500)]), "tail"],
+ "set_3000": S(range(3000)),
  "set_str": S(["alpha", "beta", "gamma", "delta"]),
  "set_int": S([5, 3, 10 ** 20, -1]),
  "set_mixed": S([1, "a", (2, 3), None]),
